@@ -313,7 +313,32 @@ func width(t types.Type) int64 { return sizes.Sizeof(t) * 8 }
 // memType is the spec-level type of the raw byte memory (ufun parameters)
 var memType = types.NewNamed(types.NewTypeName(0, nil, "memory", nil), types.NewStruct(nil, nil), nil)
 
+// arrType(elem): spec-level type of the contents of one allocation unit
+// (byte offset -> element), e.g. the words of a bitmap
+var arrTypes = map[string]*types.Named{}
+var arrElem = map[*types.Named]types.Type{}
+
+func arrTypeOf(elem types.Type) *types.Named {
+	k := types.TypeString(elem, nil)
+	if t, ok := arrTypes[k]; ok {
+		return t
+	}
+	t := types.NewNamed(types.NewTypeName(0, nil, "arr["+k+"]", nil), types.NewStruct(nil, nil), nil)
+	arrTypes[k] = t
+	arrElem[t] = elem
+	return t
+}
+
 func (m mode) leaves(t types.Type) []leaf {
+	if nt, ok := t.(*types.Named); ok {
+		if el, ok := arrElem[nt]; ok {
+			ls := m.leaves(el)
+			if len(ls) != 1 {
+				panic(engineErr("arr[T] needs a scalar T"))
+			}
+			return []leaf{{"", fmt.Sprintf("(Array %s %s)", m.offSort(), ls[0].sort), 0, nil}}
+		}
+	}
 	if t == memType {
 		return []leaf{{"", "(Array (_ BitVec 64) (_ BitVec 8))", 0, nil}}
 	}
